@@ -150,34 +150,39 @@ def guardTable : String := Id.run do
     out := out.push s!"{b2s e}{b2s p}{b2s s}{b2s c}{b2s pb}{b2s d}={(Guard.effective e p s c pb d).code}"
   return " ".intercalate out.toList
 
-/-- `facade`: one line per precompile invocation: `<static 0/1> <op><result> …` with op in
-    {0 balance, 1 sload, 2 set_balance, 3 sstore} and result in {0 ok, 1 halt, 2 fatal}, e.g.
-    `1 10 31 21`.  Replayed through `Facade.runOps` (no database failures): the kind of every
-    result must be the model's. -/
+/-- `facade`: one line per precompile invocation: `<static 0/1> <op><result><cold><addr> …` with
+    op in {0 balance, 1 sload, 2 set_balance, 3 sstore}, result in {0 ok, 1 halt, 2 fatal}, cold in
+    {0 warm, 1 cold, 2 not reported} and a one-digit address index, e.g. `1 3120 2120`.  Replayed
+    through `Facade.runOps` (no database failures): the kind of every result must be the model's,
+    and an account the model says is already loaded in the journal (an earlier successful access
+    of the same invocation) must not be reported cold. -/
 def replayFacade (lines : List String) : String := Id.run do
   let mut idx := 0
   for line in lines do
     match words line with
     | st :: calls =>
-        let s0 : Facade.FState :=
+        let mut s : Facade.FState :=
           { j := { bal := fun _ => 1, stor := fun _ _ => 1, loaded := [] }, isStatic := st == "1", fault := none }
-        let ops : List (Facade.Op × Nat) := calls.filterMap fun c =>
+        for c in calls do
           match c.toList with
-          | [o, r] =>
+          | [o, r, cold, a] =>
+              let addr := a.toNat - '0'.toNat
               let op : Option Facade.Op := match o with
-                | '0' => some (.balance 1) | '1' => some (.sload 1 0)
-                | '2' => some (.setBalance 1 2) | '3' => some (.sstore 1 0 2) | _ => none
-              let rk : Option Nat := match r with | '0' => some 0 | '1' => some 1 | '2' => some 2 | _ => none
-              match op, rk with
-              | some op, some rk => some (op, rk)
-              | _, _ => none
-          | _ => none
-        if ops.length != calls.length then return s!"diverge {idx} unparsable: {line}"
-        let (_, rs) := Facade.runOps (fun _ => false) s0 (ops.map (·.1))
-        let kinds := rs.map fun r => match r with
-          | .ok _ => 0 | .err (.halt _) => 1 | .err (.fatal _) => 2
-        if kinds != ops.map (·.2) then
-          return s!"diverge {idx} static={st}: implementation result kinds {ops.map (·.2)}, model {kinds} :: {line.trimAscii.toString}"
+                | '0' => some (.balance addr) | '1' => some (.sload addr 0)
+                | '2' => some (.setBalance addr 2) | '3' => some (.sstore addr 0 2) | _ => none
+              match op with
+              | none => return s!"diverge {idx} unparsable call {c} :: {line.trimAscii.toString}"
+              | some op =>
+                  let wasLoaded := s.j.loaded.contains addr
+                  let (s', res) := Facade.call (fun _ => false) s op
+                  let kind := match res with
+                    | .ok _ => '0' | .err (.halt _) => '1' | .err (.fatal _) => '2'
+                  if kind != r then
+                    return s!"diverge {idx} static={st}: call {c} returned kind {r}, model {kind} :: {line.trimAscii.toString}"
+                  if wasLoaded && cold == '1' then
+                    return s!"diverge {idx} call {c}: the account was already accessed in this invocation (loaded in the journal per the model) but is reported cold — the earlier access did not go through the journal :: {line.trimAscii.toString}"
+                  s := s'
+          | _ => return s!"diverge {idx} unparsable call {c} :: {line.trimAscii.toString}"
     | [] => pure ()
     idx := idx + 1
   return s!"ok {idx}"
